@@ -679,4 +679,349 @@ theorem forest_shape (n : Nat) (hn : n < 2^64) :
   simp
 
 
+/-! ## `right_lineage_length_from_node_index` -/
+
+/-- a table has one row per node index -/
+theorem rows_idx_unique : ∀ (h o l p s : Nat) (isR : Bool) (rp mt : Nat) (auth : List Nat) (r1 r2 : Row),
+    r1 ∈ (tree o l h).rows p s isR rp mt auth → r2 ∈ (tree o l h).rows p s isR rp mt auth →
+    r1.idx = r2.idx → r1 = r2 := by
+  intro h
+  induction h with
+  | zero =>
+    intro o l p s isR rp mt auth r1 r2 h1 h2 _
+    rw [rows_tree_zero] at h1 h2
+    rw [List.mem_singleton.mp h1, List.mem_singleton.mp h2]
+  | succ h ih =>
+    intro o l p s isR rp mt auth r1 r2 h1 h2 he
+    rw [rows_tree_succ] at h1 h2
+    have hp22 : 2^(h+1+1) = 2 * 2^(h+1) := two_pow_succ' (h+1)
+    have hp2 : 2^(h+2) = 2 * 2^(h+1) := two_pow_succ' (h+1)
+    have hpos := Nat.two_pow_pos (h+1)
+    rcases List.mem_append.mp h1 with h1 | h1
+    · rcases List.mem_append.mp h1 with h1 | h1
+      · have g1 := rows_idx_range _ _ _ _ _ _ _ _ _ _ h1
+        rcases List.mem_append.mp h2 with h2 | h2
+        · rcases List.mem_append.mp h2 with h2 | h2
+          · exact ih _ _ _ _ _ _ _ _ r1 r2 h1 h2 he
+          · have g2 := rows_idx_range _ _ _ _ _ _ _ _ _ _ h2; omega
+        · have := List.mem_singleton.mp h2; subst this; simp only at he; omega
+      · have g1 := rows_idx_range _ _ _ _ _ _ _ _ _ _ h1
+        rcases List.mem_append.mp h2 with h2 | h2
+        · rcases List.mem_append.mp h2 with h2 | h2
+          · have g2 := rows_idx_range _ _ _ _ _ _ _ _ _ _ h2; omega
+          · exact ih _ _ _ _ _ _ _ _ r1 r2 h1 h2 he
+        · have := List.mem_singleton.mp h2; subst this; simp only at he; omega
+    · have := List.mem_singleton.mp h1; subst this
+      rcases List.mem_append.mp h2 with h2 | h2
+      · rcases List.mem_append.mp h2 with h2 | h2
+        · have g2 := rows_idx_range _ _ _ _ _ _ _ _ _ _ h2; simp only at he; omega
+        · have g2 := rows_idx_range _ _ _ _ _ _ _ _ _ _ h2; simp only at he; omega
+      · exact (List.mem_singleton.mp h2).symm
+
+/-- right spine: the node `d` below the root on the right spine has right-lineage length `root's + d` -/
+theorem rows_right_spine : ∀ (h o l p s : Nat) (isR : Bool) (rp mt : Nat) (auth : List Nat) (r : Row),
+    r ∈ (tree o l h).rows p s isR rp mt auth → o + 2^(h+1) - 1 ≤ r.idx + h →
+    r.rll + r.idx = (if isR then rp + 1 else 0) + (o + 2^(h+1) - 1) := by
+  intro h
+  induction h with
+  | zero =>
+    intro o l p s isR rp mt auth r hr _
+    rw [rows_tree_zero] at hr
+    have := List.mem_singleton.mp hr
+    subst this
+    simp
+  | succ h ih =>
+    intro o l p s isR rp mt auth r hr hsp
+    rw [rows_tree_succ] at hr
+    have hp22 : 2^(h+1+1) = 2 * 2^(h+1) := two_pow_succ' (h+1)
+    have hp2 : 2^(h+2) = 2 * 2^(h+1) := two_pow_succ' (h+1)
+    have hpos := Nat.two_pow_pos (h+1)
+    have hhlt : h + 1 < 2^(h+1) := Nat.lt_two_pow_self
+    rcases List.mem_append.mp hr with hr | hr
+    · rcases List.mem_append.mp hr with hr | hr
+      · have g := rows_idx_range _ _ _ _ _ _ _ _ _ _ hr; omega
+      · have g := rows_idx_range _ _ _ _ _ _ _ _ _ _ hr
+        have := ih _ _ _ _ true _ _ _ r hr (by omega)
+        simp only [if_true] at this
+        omega
+    · have := List.mem_singleton.mp hr
+      subst this
+      simp only
+
+/-- translation: the table of `tree o' l' h` is the table of `tree o l h` shifted; the right-lineage lengths agree
+    everywhere when the subtree roots have the same one, and off the right spine in any case -/
+theorem rows_translate : ∀ (h o l p s : Nat) (isR : Bool) (rp mt : Nat) (auth : List Nat)
+    (o' l' p' s' : Nat) (isR' : Bool) (rp' mt' : Nat) (auth' : List Nat),
+    ∀ r ∈ (tree o l h).rows p s isR rp mt auth, ∃ r' ∈ (tree o' l' h).rows p' s' isR' rp' mt' auth',
+      r'.idx + o = r.idx + o' ∧ r'.height = r.height ∧
+      ((if isR then rp + 1 else 0) = (if isR' then rp' + 1 else 0) → r'.rll = r.rll) ∧
+      (r.idx + h < o + 2^(h+1) - 1 → r'.rll = r.rll) := by
+  intro h
+  induction h with
+  | zero =>
+    intro o l p s isR rp mt auth o' l' p' s' isR' rp' mt' auth' r hr
+    rw [rows_tree_zero] at hr ⊢
+    have := List.mem_singleton.mp hr
+    subst this
+    refine ⟨_, List.mem_singleton.mpr rfl, by simp only; omega, rfl, fun h => h.symm, fun h => ?_⟩
+    simp at h
+  | succ h ih =>
+    intro o l p s isR rp mt auth o' l' p' s' isR' rp' mt' auth' r hr
+    rw [rows_tree_succ] at hr ⊢
+    have hp22 : 2^(h+1+1) = 2 * 2^(h+1) := two_pow_succ' (h+1)
+    have hp2 : 2^(h+2) = 2 * 2^(h+1) := two_pow_succ' (h+1)
+    have hpos := Nat.two_pow_pos (h+1)
+    rcases List.mem_append.mp hr with hr | hr
+    · rcases List.mem_append.mp hr with hr | hr
+      · obtain ⟨r', hr', e1, e2, e3, _⟩ := ih o l _ _ false (if isR then rp + 1 else 0) (2*mt) _ o' l'
+          (o' + 2^(h+2) - 1) (o' + 2^(h+1) - 1 + 2^(h+1) - 1) false (if isR' then rp' + 1 else 0) (2*mt')
+          ((o' + 2^(h+1) - 1 + 2^(h+1) - 1) :: auth') r hr
+        have e3' := e3 (by simp)
+        exact ⟨r', List.mem_append.mpr (Or.inl (List.mem_append.mpr (Or.inl hr'))), e1, e2, fun _ => e3', fun _ => e3'⟩
+      · obtain ⟨r', hr', e1, e2, e3, e4⟩ := ih (o + 2^(h+1) - 1) (l + 2^h) _ _ true (if isR then rp + 1 else 0) (2*mt+1) _
+          (o' + 2^(h+1) - 1) (l' + 2^h) (o' + 2^(h+2) - 1) (o' + 2^(h+1) - 1) true (if isR' then rp' + 1 else 0)
+          (2*mt'+1) ((o' + 2^(h+1) - 1) :: auth') r hr
+        refine ⟨r', List.mem_append.mpr (Or.inl (List.mem_append.mpr (Or.inr hr'))), by omega, e2, fun hc => ?_, fun hc => ?_⟩
+        · exact e3 (by simp only [if_true]; omega)
+        · exact e4 (by omega)
+    · have := List.mem_singleton.mp hr
+      subst this
+      refine ⟨_, List.mem_append.mpr (Or.inr (List.mem_singleton.mpr rfl)), by simp only; omega, rfl, fun hc => hc.symm,
+        fun hc => ?_⟩
+      simp only at hc; omega
+
+theorem rllFromNodeIndexAux_succ (f n : Nat) :
+    rllFromNodeIndexAux (f+1) n =
+      if bitLen n < (2^(bitLen n) - n) % W64 then
+        rllFromNodeIndexAux f (add64 (sub64 n (shl1 (dec32 (bitLen n)))) 1)
+      else some (sub64 ((2^(bitLen n) - n) % W64) 1 % W32) := rfl
+
+/-- a row of a small left-spine tree is the row with the same index in a bigger one -/
+theorem left_spine_row (k K : Nat) (hkK : k ≤ K) (r : Row) (hr : r ∈ (tree 0 0 k).rootRows) :
+    ∃ r' ∈ (tree 0 0 K).rootRows, r'.idx = r.idx ∧ r'.rll = r.rll ∧ r'.height = r.height := by
+  by_cases he : k = K
+  · subst he; exact ⟨r, hr, rfl, rfl, rfl⟩
+  · have := rows_embed K k 0 0 0 0 0 false 0 1 [] (by omega) (Nat.dvd_zero _)
+      (by rw [Nat.zero_add]; exact Nat.pow_le_pow_right (by decide) hkK) r
+      (by simpa [nodesOf, popCount_zero] using hr)
+    obtain ⟨r', hr', hc⟩ := this
+    exact ⟨r', hr', hc.idx.symm, hc.rll.symm, hc.height.symm⟩
+
+theorem log2_of_range (n k : Nat) (h1 : 2^k ≤ n) (h2 : n ≤ 2^(k+1) - 1) : Nat.log2 n = k := by
+  have hpos := Nat.two_pow_pos k
+  have hp := two_pow_succ' k
+  exact (Nat.log2_eq_iff (by omega)).mpr ⟨h1, by omega⟩
+
+/-- **`right_lineage_length_from_node_index`** on the nodes of the left-spine tree of their own bit width -/
+theorem rllFromNode_rows : ∀ k, k ≤ 63 → ∀ r ∈ (tree 0 0 k).rootRows, 2^k ≤ r.idx →
+    ∀ fuel, k + 1 ≤ fuel → rllFromNodeIndexAux fuel r.idx = some r.rll := by
+  intro k
+  induction k using Nat.strongRecOn with
+  | _ k ih =>
+    intro hk r hr hlo fuel hf
+    obtain ⟨f, rfl⟩ : ∃ f, fuel = f + 1 := ⟨fuel - 1, by omega⟩
+    have hrange := rows_idx_range _ _ _ _ _ _ _ _ _ _ hr
+    simp only [Nat.zero_add] at hrange
+    have hlog := log2_of_range r.idx k hlo hrange.2
+    have hbl : bitLen r.idx = k + 1 := by rw [bitLen_pos _ (by omega), hlog]
+    have hp := two_pow_succ' k
+    have hpos := Nat.two_pow_pos k
+    have hW := two_pow_le_W (k+1) (by omega)
+    have hdist : (2^(k+1) - r.idx) % W64 = 2^(k+1) - r.idx := by unfold W64; omega
+    have hklt : k < 2^k := Nat.lt_two_pow_self
+    rw [rllFromNodeIndexAux_succ, hbl, hdist]
+    by_cases hc : k + 1 < 2^(k+1) - r.idx
+    · -- not on the right spine: strip the top tree
+      rw [if_pos hc]
+      have hk1 : 1 ≤ k := by
+        by_contra h0
+        have : k = 0 := by omega
+        subst this
+        simp at hc hlo
+        omega
+      obtain ⟨k', rfl⟩ : ∃ k', k = k' + 1 := ⟨k - 1, by omega⟩
+      have hn' : add64 (sub64 r.idx (shl1 (dec32 (k'+1+1)))) 1 = r.idx - (2^(k'+1) - 1) := by
+        rw [dec32_succ (k'+1) (by omega), shl1_of_lt (k'+1) (by omega)]
+        unfold add64 sub64 W64; omega
+      rw [hn']
+      -- r lies in the right subtree
+      have hp22 : 2^(k'+1+1) = 2 * 2^(k'+1) := two_pow_succ' (k'+1)
+      have hp2 : 2^(k'+2) = 2 * 2^(k'+1) := two_pow_succ' (k'+1)
+      have hr2 := hr
+      unfold TF.Spec.Mmr.Tree.rootRows at hr2
+      rw [rows_tree_succ] at hr2
+      have hright : r ∈ (tree (0 + 2^(k'+1) - 1) (0 + 2^k') k').rows (0 + 2^(k'+2) - 1) (0 + 2^(k'+1) - 1) true
+          (if false = true then 0 + 1 else 0) (2*1+1) ((0 + 2^(k'+1) - 1) :: []) := by
+        rcases List.mem_append.mp hr2 with h | h
+        · rcases List.mem_append.mp h with h | h
+          · have g := rows_idx_range _ _ _ _ _ _ _ _ _ _ h; omega
+          · exact h
+        · have := List.mem_singleton.mp h
+          subst this
+          simp only at hc hlo; omega
+      obtain ⟨r', hr', e1, _, _, e4⟩ := rows_translate k' _ _ _ _ _ _ _ _ 0 0 0 0 false 0 1 [] r hright
+      have hrll : r'.rll = r.rll := e4 (by omega)
+      have hidx : r'.idx = r.idx - (2^(k'+1) - 1) := by omega
+      -- move to the tree of the bit width of the new index
+      have hr'range := rows_idx_range _ _ _ _ _ _ _ _ _ _ hr'
+      simp only [Nat.zero_add] at hr'range
+      have hn1 : 1 ≤ r'.idx := by omega
+      have hk'' : Nat.log2 r'.idx ≤ k' := by
+        have : Nat.log2 r'.idx < k' + 1 := (Nat.log2_lt (by omega)).mpr (by omega)
+        omega
+      have hlo'' := Nat.log2_self_le (n := r'.idx) (by omega)
+      have hhi'' : r'.idx ≤ 2^(Nat.log2 r'.idx + 1) - 1 := by
+        have := (Nat.log2_lt (n := r'.idx) (k := Nat.log2 r'.idx + 1) (by omega)).mp (Nat.lt_succ_self _)
+        omega
+      obtain ⟨r'', hr'', hidx''⟩ := rows_idx_complete (Nat.log2 r'.idx) 0 0 0 0 false 0 1 [] r'.idx (by omega)
+        (by simpa using hhi'')
+      obtain ⟨r3, hr3, e5, e6, _⟩ := left_spine_row (Nat.log2 r'.idx) k' hk'' r'' hr''
+      have hsame : r3 = r' := rows_idx_unique _ _ _ _ _ _ _ _ _ r3 r' hr3 hr' (by rw [e5, hidx''])
+      have := ih (Nat.log2 r'.idx) (by omega) (by omega) r'' hr'' (by rw [hidx'']; exact hlo'') f (by omega)
+      rw [hidx'', hidx] at this
+      rw [this, ← e6, hsame, hrll]
+    · -- on the right spine
+      rw [if_neg hc]
+      have hsp := rows_right_spine k 0 0 0 0 false 0 1 [] r hr (by omega)
+      simp only [Bool.false_eq_true, if_false, Nat.zero_add] at hsp
+      have : sub64 (2^(k+1) - r.idx) 1 % W32 = r.rll := by
+        unfold sub64 W64 W32
+        omega
+      rw [this]
+
+/-- **`right_lineage_length_from_node_index`** agrees with the table for every node index `1 … 2^64 − 1` -/
+theorem rll_node_rows (r : Row) (hr : r ∈ (tree 0 0 63).rootRows) :
+    right_lineage_length_from_node_index r.idx = some r.rll := by
+  have hrange := rows_idx_range _ _ _ _ _ _ _ _ _ _ hr
+  simp only [Nat.zero_add] at hrange
+  have hlo := Nat.log2_self_le (n := r.idx) (by omega)
+  have hk : Nat.log2 r.idx ≤ 63 := by
+    have : Nat.log2 r.idx < 64 := (Nat.log2_lt (by omega)).mpr (by omega)
+    omega
+  have hhi : r.idx ≤ 2^(Nat.log2 r.idx + 1) - 1 := by
+    have := (Nat.log2_lt (n := r.idx) (k := Nat.log2 r.idx + 1) (by omega)).mp (Nat.lt_succ_self _)
+    omega
+  obtain ⟨r'', hr'', hidx''⟩ := rows_idx_complete (Nat.log2 r.idx) 0 0 0 0 false 0 1 [] r.idx (by omega)
+    (by simpa using hhi)
+  obtain ⟨r3, hr3, e5, e6, _⟩ := left_spine_row (Nat.log2 r.idx) 63 hk r'' hr''
+  have hsame : r3 = r := rows_idx_unique _ _ _ _ _ _ _ _ _ r3 r hr3 hr (by rw [e5, hidx''])
+  have := rllFromNode_rows (Nat.log2 r.idx) hk r'' hr'' (by rw [hidx'']; exact hlo) descentFuel
+    (by unfold descentFuel; omega)
+  rw [hidx''] at this
+  unfold right_lineage_length_from_node_index
+  rw [this, ← e6, hsame]
+
+/-! ## `node_indices_added_by_append` -/
+
+/-- every leaf index of the range has a row -/
+theorem rows_leaf_complete : ∀ (h o l p s : Nat) (isR : Bool) (rp mt : Nat) (auth : List Nat) (li : Nat),
+    l ≤ li → li < l + 2^h → ∃ r ∈ (tree o l h).rows p s isR rp mt auth, r.leaf = some li := by
+  intro h
+  induction h with
+  | zero =>
+    intro o l p s isR rp mt auth li h1 h2
+    rw [rows_tree_zero]
+    have : li = l := by simp at h2; omega
+    subst this
+    exact ⟨_, List.mem_singleton.mpr rfl, rfl⟩
+  | succ h ih =>
+    intro o l p s isR rp mt auth li h1 h2
+    rw [rows_tree_succ]
+    have hp := two_pow_succ' h
+    by_cases c : li < l + 2^h
+    · obtain ⟨r, hr, hl⟩ := ih o l (o + 2^(h+2) - 1) (o + 2^(h+1) - 1 + 2^(h+1) - 1) false (if isR then rp + 1 else 0)
+        (2*mt) ((o + 2^(h+1) - 1 + 2^(h+1) - 1) :: auth) li h1 c
+      exact ⟨r, List.mem_append.mpr (Or.inl (List.mem_append.mpr (Or.inl hr))), hl⟩
+    · obtain ⟨r, hr, hl⟩ := ih (o + 2^(h+1) - 1) (l + 2^h) (o + 2^(h+2) - 1) (o + 2^(h+1) - 1) true
+        (if isR then rp + 1 else 0) (2*mt+1) ((o + 2^(h+1) - 1) :: auth) li (by omega) (by omega)
+      exact ⟨r, List.mem_append.mpr (Or.inl (List.mem_append.mpr (Or.inr hr))), hl⟩
+
+theorem popCount_pos (n : Nat) (h : n ≠ 0) : 1 ≤ popCount n := by
+  induction n using Nat.strongRecOn with
+  | _ n ih =>
+    rw [popCount_eq]
+    by_cases ho : n % 2 = 1
+    · omega
+    · have := ih (n/2) (by omega) (by omega)
+      omega
+
+/-- the carry chain: incrementing flips the trailing ones -/
+theorem popCount_succ_add_trailingOnes (c : Nat) : popCount (c + 1) + trailingOnes c = popCount c + 1 := by
+  induction c using Nat.strongRecOn with
+  | _ c ih =>
+    rcases Nat.even_or_odd' c with ⟨a, rfl | rfl⟩
+    · rw [popCount_two_mul_add_one, popCount_two_mul, trailingOnes_even _ (by omega)]
+    · have e : 2 * a + 1 + 1 = 2 * (a + 1) := by ring
+      rw [e, popCount_two_mul, popCount_two_mul_add_one, trailingOnes_odd _ (by omega)]
+      have : (2 * a + 1) / 2 = a := by omega
+      rw [this]
+      have := ih a (by omega)
+      omega
+
+theorem nodesOf_succ (c : Nat) : nodesOf (c + 1) = nodesOf c + 1 + trailingOnes c := by
+  unfold nodesOf
+  have := popCount_succ_add_trailingOnes c
+  have := popCount_le c
+  have := popCount_le (c+1)
+  omega
+
+theorem added_of (c x t : Nat) (h1 : leaf_index_to_node_index c = x)
+    (h2 : right_lineage_length_from_node_index x = some t) :
+    node_indices_added_by_append c = some ((List.range (t + 1)).map fun k => add64 x k) := by
+  unfold node_indices_added_by_append
+  rewrite [h1, h2]
+  rfl
+
+/-- **`node_indices_added_by_append`**: the new leaf `2c − popcount c + 1` and the `trailing_ones c` parents created
+    with it, consecutive node indices -/
+theorem added_spec (c : Nat) (hc : c < 2^63) :
+    node_indices_added_by_append c
+      = some ((List.range (trailingOnes c + 1)).map fun k => nodesOf c + 1 + k) := by
+  obtain ⟨r, hr, hl⟩ := rows_leaf_complete 63 0 0 0 0 false 0 1 [] c (Nat.zero_le _) (by omega)
+  obtain ⟨_, h1, h2⟩ := leaf_rows r hr c hl
+  have hrll := rll_node_rows r hr
+  have ht := (rll_leaf_spec c (by omega)).1
+  have hrange := rows_idx_range _ _ _ _ _ _ _ _ _ _ hr
+  have hl2n := (l2n_spec c hc).1
+  have hspine : r.idx + r.rll ≤ 2^64 - 1 := by
+    have hsucc := nodesOf_succ c
+    have hpp := popCount_pos (c+1) (by omega)
+    have hple := popCount_le (c+1)
+    have hidx : r.idx = nodesOf c + 1 := by rw [← h1, hl2n]; rfl
+    have h63 : (2:Nat)^63 = 9223372036854775808 := by decide
+    have h64 : (2:Nat)^64 = 18446744073709551616 := by decide
+    have hn : nodesOf (c+1) = 2 * (c+1) - popCount (c+1) := rfl
+    rw [← h2, ht, hidx]
+    omega
+  have hrt : r.rll = trailingOnes c := by rw [← h2, ht]
+  have hidx : nodesOf c + 1 = r.idx := by rw [← h1, hl2n]; rfl
+  rw [hrt] at hrll hspine
+  rw [added_of c r.idx (trailingOnes c) h1 hrll, hidx]
+  have hmap : List.map (fun k => add64 r.idx k) (List.range (trailingOnes c + 1))
+      = List.map (fun k => r.idx + k) (List.range (trailingOnes c + 1)) := by
+    apply List.map_congr_left
+    intro k hk
+    have hk' := List.mem_range.mp hk
+    have h64 : (2:Nat)^64 = 18446744073709551616 := by decide
+    unfold add64 W64
+    omega
+  rw [hmap]
+
+
+/-- `right_lineage_length_from_node_index` on the explicit forest -/
+theorem forest_rll_node (n : Nat) (hn : n < 2^63) (k : Nat) (r : Row) (hr : (k, r) ∈ (forest n).rows) :
+    right_lineage_length_from_node_index r.idx = some r.rll := by
+  obtain ⟨r', hr', e1, _, e3, _⟩ := forest_row_in_s1 n hn k r hr
+  rw [e1, e3]; exact rll_node_rows r' hr'
+
+/-- `node_indices_added_by_append` against the explicit forest: the nodes that appending one leaf creates -/
+theorem forest_added (c : Nat) (hc : c < 2^63) :
+    node_indices_added_by_append c
+      = some ((List.range ((forest (c+1)).nodes - (forest c).nodes)).map fun k => (forest c).nodes + 1 + k) := by
+  rw [added_spec c hc, forest_eq, forest_eq]
+  simp only
+  have := nodesOf_succ c
+  have e : nodesOf (c + 1) - nodesOf c = trailingOnes c + 1 := by omega
+  rw [e]
+
 end TF.Mmr
